@@ -1,6 +1,6 @@
 CONSTANTS
   Variant = "fixed"
-  RuleIds = {3, 5, 8, 9, 11, 13, 19, 24}
+  RuleIds = {3, 5, 8, 9, 10, 11, 13, 19}
   K = 2
   Toks <- TokQ
   MaxParts = 3
